@@ -10,6 +10,7 @@ import (
 	"runtime"
 	"strings"
 	"sync"
+	"sync/atomic"
 
 	"github.com/reusee/sb"
 )
@@ -105,6 +106,25 @@ func concOps() []concOp {
 			e := guard(func() error { return copyBudget(tokensFrom(ts), sb.Unmarshal(&x)) })
 			return digestOf(strings.Join(names, ","), descTokens(ts), fmt.Sprintf("%T", x), classOf(e))
 		},
+		// registration of FRESH types while others marshal (lost updates of the registries)
+		func(r *rand.Rand) string {
+			depth := 2 + int(freshTypeCounter.Add(1))
+			t := reflect.TypeOf(RegPoint{})
+			for i := 0; i < depth; i++ {
+				t = reflect.PtrTo(t)
+			}
+			sb.Register(t)
+			// a value of the freshly registered type must be marshalled with its type name ...
+			v := reflect.New(t.Elem()) // *(...): points to a nil pointer of the next level
+			ts, err := marshalTokens(v.Interface(), nil)
+			named := len(ts) > 0 && ts[0].Kind == sb.KindTypeName && ts[0].Value == sb.TypeName(t)
+			// ... and the name must resolve back to the type
+			var x any
+			e2 := guard(func() error {
+				return copyBudget(tokensFrom([]sb.Token{{Kind: sb.KindTypeName, Value: sb.TypeName(t)}, {Kind: sb.KindNil}}), sb.Unmarshal(&x))
+			})
+			return digestOf(named, classOf(err), classOf(e2), x != nil && reflect.TypeOf(x) == t)
+		},
 		// strict mode with deprecated-field declarations (the deprecation memo)
 		func(r *rand.Rand) string {
 			var res []string
@@ -128,6 +148,8 @@ func concOps() []concOp {
 		},
 	}
 }
+
+var freshTypeCounter atomic.Int64
 
 func famConc(dir string, seed int64, tier string) {
 	thorough := tier == "thorough"
